@@ -86,10 +86,12 @@ enum Byp {
 enum Act {
     Construct(Vec<usize>),
     Rotate { cand: usize, src: Src, byp: Byp },
+    Advance(u32),
 }
 
 #[derive(Clone, Hash)]
 struct Model {
+    advances: u8,
     deployed: bool,
     installed: Vec<usize>,
 }
@@ -162,7 +164,7 @@ impl Scenario for C03 {
         assert!(!w.has_instance(&gw));
         (
             Ctx { w, gw, factory, keys, operator, owner, cands, specs },
-            Model { deployed: false, installed: vec![] },
+            Model { advances: 0, deployed: false, installed: vec![] },
         )
     }
 
@@ -171,6 +173,9 @@ impl Scenario for C03 {
             return self.init_lists().into_iter().map(Act::Construct).collect();
         }
         let mut v = vec![];
+        if m.advances < 1 {
+            v.push(Act::Advance(20));
+        }
         for cand in [A, B, C, I0, I1] {
             for src in [Src::Latest, Src::Older, Src::Outdated, Src::NeverInstalled, Src::LatestForOtherCandidate] {
                 for byp in [Byp::No, Byp::Operator, Byp::NoAuth, Byp::OwnerAuth] {
@@ -194,6 +199,13 @@ impl Scenario for C03 {
         let env = &w.env;
         let h0 = w.state_hash();
         match a {
+            Act::Advance(n) => {
+                out.kind = "advance";
+                out.accepted = true;
+                w.set_seq(w.seq() + n);
+                w.set_time(w.now() + 5 * *n as u64);
+                m.advances += 1;
+            }
             Act::Construct(list) => {
                 out.kind = "construct";
                 let args = self.ctor_args(ctx, list);
